@@ -276,8 +276,9 @@ def u1_u3(prog: Program, chk: Check) -> None:
     for q in ("system_dynamics:compute_dynamics", "system_dynamics:compute_dynamics_with_field",
               "gradient:compute_gradient_and_dynamics"):
         u = prog.unit(q)
-        for st in walk_local(u.node):
-            if isinstance(st, ast.Assign) and any(dotted(t) == "times" for t in st.targets):
+        from rules.c13 import label_assignments
+        for st in label_assignments(u):
+            if True:
                 v = st.value
                 e = v.elts[0] if isinstance(v, (ast.List, ast.Tuple)) and len(v.elts) == 1 else v
                 nid = tf.du(u).node_of(st.value)
@@ -288,8 +289,10 @@ def u1_u3(prog: Program, chk: Check) -> None:
                 chk.add("U1", u, f"label: times = {norm(v)}", f == wantf,
                         f"form {f} (expected {wantf})", st)
     u = prog.unit("system_dynamics:compute_correlations_nt")
+    from rules.c07 import NtView
+    _axes = NtView(prog).ret_times      # the returned list of time axes, whatever it is called
     for c in walk_local(u.node):
-        if isinstance(c, ast.Call) and method_call(c) == ("ret_times", "append"):
+        if isinstance(c, ast.Call) and method_call(c) == (_axes, "append"):
             du = tf.du(u)
             nid = du.node_of(c)
 
